@@ -13,6 +13,14 @@
       it is the parameter `up : Nat → Bool` (by object id) and is fixed during one drain of an iterator.
     * the iterator returned by `Pick` is modelled by the full sequence it offers until it returns nil.
     * shuffling is an arbitrary function `σ` on the replica list (theorems assume it permutes).
+    * the rotation counter `lastUsedHostIdx` is modelled AS THE CODE HAS IT: a uint64 (`ctr`, wraps at 2^64),
+      converted with `int(...)` to a 64 bit signed shift; `(shift+currentlyObserved)%size` is Go's int
+      arithmetic (the sum wraps, `%` truncates toward zero) and a negative index is a panic (`Scan.crashed`).
+      `layerSeq` / `rrSeq` / `Pol.pickSeq` (natural-number shift) are the IDEAL sequences; the scan functions
+      (`layerScan`, `rrScan`, `Pol.pickScan`, `TA.pickScan`, `TA.pick`) are the code. They agree below
+      the bound `ctr + 1 + (layer length) < 2^63` (theorem `C11_scan_below_bound`).
+    * `Ev`, `Status`, `statusOf`, `Status.expected`: the property's own definition, from the HISTORY of
+      notifier calls, of "a host the policy knows and that is up" (independent of the policy lists).
   Core Lean only (compiled into the native driver).
 -/
 namespace Policies
@@ -51,6 +59,40 @@ def layerSeq (shift : Nat) (l : List Host) : List Host :=
 down hosts skipped. -/
 def rrSeq (up : Nat → Bool) (shift : Nat) (layers : List (List Host)) : List Host :=
   (layers.map (fun l => (layerSeq shift l).filter (fun h => up h.id))).flatten
+
+/-! ### roundRobbin as the code computes it: uint64 counter, `int(...)`, Go's `%` -/
+
+def two63 : Nat := 9223372036854775808
+def two64 : Nat := 18446744073709551616
+
+/-- the value a Go `int` (64 bit, two's complement) holds for the mathematical integer `x` -/
+def wrap64 (x : Int) : Int := (x + 9223372036854775808) % 18446744073709551616 - 9223372036854775808
+
+/-- `(shift+currentlyObserved)%currentLayerSize` as an index: the sum wraps to 64 bit, `%` is the truncated
+remainder (sign of the dividend), a negative index is a run-time panic (`none`). `n > 0` where it is used. -/
+def goIndex (shift : Int) (k n : Nat) : Option Nat :=
+  let i := Int.tmod (wrap64 (shift + (k : Int))) (n : Int)
+  if i < 0 then none else some i.toNat
+
+/-- the positions `currentlyObserved = 1 … n` of one layer: the host looked at, or `none` = panic -/
+def layerScan (shift : Int) (l : List Host) : List (Option Host) :=
+  (List.range l.length).map (fun k => (goIndex shift (k + 1) l.length).map (fun i => l.getD i default))
+
+/-- what a drained iterator offers: the hosts returned until it returns nil — or until it panics -/
+structure Scan where
+  offered : List Host
+  crashed : Bool
+deriving Repr, DecidableEq
+
+/-- walk over the positions: down hosts are skipped, the first panic ends the walk -/
+def runScan (up : Nat → Bool) : List (Option Host) → Scan
+  | [] => ⟨[], false⟩
+  | none :: _ => ⟨[], true⟩
+  | some h :: r => if up h.id then ⟨h :: (runScan up r).offered, (runScan up r).crashed⟩ else runScan up r
+
+/-- the iterator `roundRobbin(shift, layers...)` of the code -/
+def rrScan (up : Nat → Bool) (shift : Int) (layers : List (List Host)) : Scan :=
+  runScan up (layers.map (layerScan shift)).flatten
 
 /-! ### the three round-robin based policies -/
 
@@ -102,11 +144,23 @@ def Pol.add (p : Pol) (h : Host) : Pol :=
 def Pol.remove (p : Pol) (h : Host) : Pol :=
   p.setLayer (p.tier h) (cowRemove (p.getLayer (p.tier h)) h.addr).1
 
-/-- sequence offered by the iterator of the next `Pick` (the counter is incremented first) -/
+/-- IDEAL sequence offered by the iterator of the next `Pick` (the counter is incremented first; shift = the
+number of picks so far, as a natural number) -/
 def Pol.pickSeq (p : Pol) (up : Nat → Bool) : List Host := rrSeq up (p.ctr + 1) p.layers
 
-def Pol.pick (p : Pol) (up : Nat → Bool) : Pol × List Host :=
-  ({ p with ctr := p.ctr + 1 }, p.pickSeq up)
+/-- `atomic.AddUint64(&lastUsedHostIdx, 1)` -/
+def Pol.bump (p : Pol) : Pol := { p with ctr := (p.ctr + 1) % 18446744073709551616 }
+
+/-- `int(nextStartOffset)` of the next `Pick` -/
+def Pol.shift (p : Pol) : Int := wrap64 (((p.ctr + 1) % 18446744073709551616 : Nat) : Int)
+
+/-- what the iterator of the next `Pick` does (the code) -/
+def Pol.pickScan (p : Pol) (up : Nat → Bool) : Scan := rrScan up p.shift p.layers
+
+def Pol.pick (p : Pol) (up : Nat → Bool) : Pol × Scan := (p.bump, p.pickScan up)
+
+/-- the hook `VerifSetPickCount`: the counter as it stands after `n` picks -/
+def Pol.setCtr (p : Pol) (n : Nat) : Pol := { p with ctr := n % 18446744073709551616 }
 
 /-! ### token-aware policy -/
 
@@ -206,13 +260,35 @@ def TA.replicasFor (t : TA) (ks tok : Nat) : Replicas :=
     | some h => .hosts [h] false
     | none => .emptyRing
 
-/-- result of draining an iterator: the hosts offered, or `crash` = a nil host was dereferenced. The
-repaired `Pick` has no path to `crash` (theorem `C11_tokenaware_no_crash`); the constructor stays so that
-the statement is about the result type the finding KF-C11-2 was recorded in. -/
+/-- result of `Pick` + a number of iterator calls: the hosts offered, or `crash` = a run-time panic
+(nil host dereferenced — no path after the fix of KF-C11-2 — or index out of range in `roundRobbin`). -/
 inductive PickResult
   | seq (l : List Host)
   | crash
 deriving Repr, DecidableEq
+
+/-- `limit` calls of the iterator (or fewer if it returns nil): the first `limit` hosts; a panic is only
+hit if the calls get that far -/
+def Scan.take (s : Scan) (limit : Nat) : PickResult :=
+  if limit ≤ s.offered.length then .seq (s.offered.take limit)
+  else if s.crashed then .crash else .seq s.offered
+
+/-- the token-aware iterator over the fallback iterator `fb`: replica phases, then the fallback's hosts that
+were not offered yet; a panic of the fallback iterator is a panic of this one -/
+def taScan (tier : Host → Nat) (maxTier : Nat) (up : Nat → Bool) (nonlocal : Bool) (replicas : List Host) (fb : Scan) : Scan :=
+  let hd := taHead tier maxTier up nonlocal replicas
+  ⟨hd ++ minusUsed hd fb.offered, fb.crashed⟩
+
+/-- what the drained iterator returned by `Pick` does (the code) -/
+def TA.pickScan (t : TA) (up : Nat → Bool) (σ : List Host → List Host) (rk : Option (Nat × Nat)) : Scan :=
+  match rk with
+  | none => t.pol.pickScan up
+  | some (ks, tok) =>
+    match t.replicasFor ks tok with
+    | .noRing => t.pol.pickScan up
+    | .emptyRing => t.pol.pickScan up
+    | .hosts l fromTable =>
+      taScan t.pol.tier t.pol.maxTier up t.nonlocal (if fromTable && t.shuffle then σ l else l) (t.pol.pickScan up)
 
 /-- `Pick(qry)` followed by `limit` calls of the returned iterator (or fewer if it returns nil):
 `rk = none` is a query without routing key; `σ` is the shuffle. Returns the new state and the hosts offered.
@@ -220,7 +296,7 @@ The fallback policy's `Pick` (which advances its counter) is only called once th
 the replica phases. -/
 def TA.pick (t : TA) (up : Nat → Bool) (σ : List Host → List Host) (rk : Option (Nat × Nat)) (limit : Nat) :
     TA × PickResult :=
-  let plain := ({ t with pol := (t.pol.pick up).1 }, PickResult.seq ((t.pol.pick up).2.take limit))
+  let plain := ({ t with pol := t.pol.bump }, (t.pol.pickScan up).take limit)
   match rk with
   | none => plain
   | some (ks, tok) =>
@@ -232,10 +308,10 @@ def TA.pick (t : TA) (up : Nat → Bool) (σ : List Host → List Host) (rk : Op
       let hd := taHead t.pol.tier t.pol.maxTier up t.nonlocal reps
       if limit ≤ hd.length then (t, .seq (hd.take limit))
       else
-        ({ t with pol := (t.pol.pick up).1 },
-         .seq ((taSeq t.pol.tier t.pol.maxTier up t.nonlocal reps (t.pol.pick up).2).take limit))
+        ({ t with pol := t.pol.bump },
+         (taScan t.pol.tier t.pol.maxTier up t.nonlocal reps (t.pol.pickScan up)).take limit)
 
-/-- the full sequence the iterator returned by `Pick` offers when drained -/
+/-- the IDEAL full sequence of the iterator returned by `Pick` (fallback = the ideal round-robin sequence) -/
 def TA.pickSeq (t : TA) (up : Nat → Bool) (σ : List Host → List Host) (rk : Option (Nat × Nat)) : PickResult :=
   match rk with
   | none => .seq (t.pol.pickSeq up)
@@ -245,5 +321,38 @@ def TA.pickSeq (t : TA) (up : Nat → Bool) (σ : List Host → List Host) (rk :
     | .emptyRing => .seq (t.pol.pickSeq up)
     | .hosts l fromTable =>
       .seq (taSeq t.pol.tier t.pol.maxTier up t.nonlocal (if fromTable && t.shuffle then σ l else l) (t.pol.pickSeq up))
+
+/-! ### the property's definition of "known and up", from the history of notifier calls
+
+`HostStateNotifier` has four calls. In the property's words: a host that was added (`AddHost`) and not
+removed (`RemoveHost`) since is KNOWN to the policy; it is UP unless the last notifier call about it was
+`HostDown` (and its `HostInfo` state says up). Nothing here looks at the policy's lists. -/
+
+inductive Ev | add | remove | hup | hdown
+deriving DecidableEq, Repr
+
+/-- what the history says about one host: known?, the last call about it -/
+structure Status where
+  known : Bool
+  last : Option Ev
+deriving DecidableEq, Repr
+
+def Status.init : Status := ⟨false, none⟩
+
+def Status.step (s : Status) : Ev → Status
+  | .add => ⟨true, some .add⟩
+  | .remove => ⟨false, some .remove⟩
+  | .hup => ⟨s.known, some .hup⟩
+  | .hdown => ⟨s.known, some .hdown⟩
+
+/-- status of host `h` after the calls `evs` (oldest first) -/
+def statusOf (evs : List (Ev × Host)) (h : Host) : Status :=
+  evs.foldl (fun s e => if e.2 = h then s.step e.1 else s) Status.init
+
+/-- the property: this host must be offered (exactly once), given its `HostInfo` state -/
+def Status.expected (s : Status) (isUp : Bool) : Bool := s.known && s.last != some .hdown && isUp
+
+/-- excluded condition 1 (finding KF-C11-3): `HostUp` for a host that is not known (never added, or removed) -/
+def Status.ghost (s : Status) : Bool := !s.known && s.last == some .hup
 
 end Policies
